@@ -446,6 +446,22 @@ Proof.
     rewrite (IHr b b' I G3), andb_true_r. apply (IHn (src_inst src)); [apply presets_inst | exact G2].
 Qed.
 
+(* when no default instance is pushed into a subgroup field (preset_wins = false: the repaired DataclassWrapper),
+   the assertions of a round hold on every shape *)
+Lemma asserts_no_preset idf :
+  (forall d, asserts_dc idf false false d = true)
+  /\ (forall s, asserts_sg idf false false s = true)
+  /\ (forall t : alts, True).
+Proof.
+  apply dc_sgfs_alts_ind; try (intros; exact I).
+  - intros c l s IH. now rewrite asserts_dc_eq.
+  - reflexivity.
+  - intros f dflt t _ r IHr. rewrite asserts_sg_un, IHr. reflexivity.
+  - intros f dflt t _ k src n IHn r IHr. rewrite asserts_sg_re, IHr.
+    assert (P : presets idf false src = false) by (destruct src; cbn; [reflexivity | reflexivity | apply andb_false_r]).
+    now rewrite P, IHn.
+Qed.
+
 Lemma find_alt_crash k t src n :
   crash_free_alts t = true -> find_alt k t = Some (src, n) -> crash_free_dc (src_inst src) n = true.
 Proof.
@@ -826,7 +842,7 @@ Section Loop.
     | Ok d' => good_dc d' = true /\ inv_dc xg root d' /\ erase_dc d' = erase_dc d
                /\ (crash_free_dc false d = true -> crash_free_dc false d' = true)
     | Err e => (e = Exit 2 /\ sp_dc its root SType d = None)
-               \/ (e = Raise "AssertionError" /\ crash_free_dc false d = false)
+               \/ (e = Raise "AssertionError" /\ crash_free_dc false d = false /\ pw = true)
     end.
   Proof.
     intros G I. unfold round.
@@ -838,8 +854,10 @@ Section Loop.
       + destruct (proj1 (round_ok tb argv es) d root d' Hg G I R) as [G' [I' E']].
         repeat split; try assumption. intros C. exact (proj1 (round_crash false es argv) d root false d' C R).
       + left. exact (proj1 (round_fail tb argv its (igiven_intents tb argv) es) d root e SType Hg G I R).
-    - right. split; [reflexivity|]. destruct (crash_free_dc false d) eqn:C; [|reflexivity].
-      rewrite (proj1 (crash_asserts idf pw) d false false (fun H => H) C) in A. discriminate.
+    - right. split; [reflexivity|]. split.
+      + destruct (crash_free_dc false d) eqn:C; [|reflexivity].
+        rewrite (proj1 (crash_asserts idf pw) d false false (fun H => H) C) in A. discriminate.
+      + destruct pw; [reflexivity|]. rewrite (proj1 (asserts_no_preset idf) d) in A. discriminate.
   Qed.
 
   Lemma loop_ok : forall fuel d,
@@ -847,7 +865,7 @@ Section Loop.
     match loop false idf pw true fuel tb argv root d with
     | Ok r => good_dc r = true /\ inv_dc xg root r /\ erase_dc r = erase_dc d /\ unres_dc r = false
     | Err e => e = OutOfFuel \/ (e = Exit 2 /\ sp_dc its root SType d = None)
-               \/ (e = Raise "AssertionError" /\ crash_free_dc false d = false)
+               \/ (e = Raise "AssertionError" /\ crash_free_dc false d = false /\ pw = true)
     end.
   Proof.
     induction fuel as [|k IH]; intros d G I; [now left|].
@@ -856,10 +874,10 @@ Section Loop.
     - destruct S as [G' [I' [E' C']]]. cbn [andb]. destruct (unres_dc d') eqn:U; cbn [negb].
       + specialize (IH d' G' I'). destruct (loop false idf pw true k tb argv root d') as [r|e].
         * destruct IH as [A [B [C D]]]. repeat split; try assumption. congruence.
-        * destruct IH as [->|[[-> N]|[-> N]]]; [now left| |].
+        * destruct IH as [->|[[-> N]|[-> [N P]]]]; [now left| |].
           -- right. left. split; [reflexivity|].
              rewrite <- (sp_dc_erase its root SType d), <- E', sp_dc_erase. exact N.
-          -- right. right. split; [reflexivity|]. destruct (crash_free_dc false d); [|reflexivity].
+          -- right. right. split; [reflexivity|]. split; [|exact P]. destruct (crash_free_dc false d); [|reflexivity].
              rewrite (C' eq_refl) in N. discriminate.
       + repeat split; assumption.
     - right. exact S.
@@ -870,7 +888,7 @@ Section Loop.
     match resolve false idf pw true fuel tb argv root d with
     | Ok r => good_dc r = true /\ inv_dc xg root r /\ erase_dc r = erase_dc d /\ unres_dc r = false
     | Err e => e = OutOfFuel \/ (e = Exit 2 /\ sp_dc its root SType d = None)
-               \/ (e = Raise "AssertionError" /\ crash_free_dc false d = false)
+               \/ (e = Raise "AssertionError" /\ crash_free_dc false d = false /\ pw = true)
     end.
   Proof.
     intros G I. unfold resolve. destruct (unres_dc d) eqn:U; cbn [negb]; [now apply loop_ok|]. repeat split; assumption.
@@ -912,8 +930,7 @@ Section Main.
   Lemma resolve_gen_cases :
     match resolve_gen fuel tb argv root d with
     | Ok r => good_dc r = true /\ inv_dc xg root r /\ erase_dc r = d /\ unres_dc r = false
-    | Err e => (e = Exit 2 /\ sp_dc its root SType d = None)
-               \/ (e = Raise "AssertionError" /\ crash_free_dc false d = false)
+    | Err e => e = Exit 2 /\ sp_dc its root SType d = None
     end.
   Proof.
     pose proof (proj1 good_of_hyps d D W) as G.
@@ -923,7 +940,10 @@ Section Main.
     unfold resolve_gen. change sub_abbrev_gen with false. change loop_breaks_gen with true.
     destruct (resolve false inst_default_gen preset_wins_gen true fuel tb argv root d) as [r|e].
     - rewrite Ed in R. exact R.
-    - destruct R as [->|R]; [congruence | exact R].
+    - destruct R as [->|[R|[_ [_ P]]]]; [congruence | exact R |].
+      (* preset_wins_gen is false since DataclassWrapper no longer pushes a default instance's attribute into a subgroup
+         field: the round's assertion cannot fail any more *)
+      vm_compute in P. discriminate.
   Qed.
 
   (* C07_key *)
@@ -972,18 +992,15 @@ Section Main.
       now rewrite Rp.
   Qed.
 
-  (* the possible outcomes *)
-  Lemma parse_outcomes :
-    match parse_gen fuel tb argv root d with
-    | Ok _ => True
-    | Err e => e = Exit 2 \/ (e = Raise "AssertionError" /\ crash_free_dc false d = false)
-    end.
+  (* the possible outcomes: a value or argparse's error, on EVERY declared tree *)
+  Theorem no_crash :
+    (exists x, parse_gen fuel tb argv root d = Ok x) \/ parse_gen fuel tb argv root d = Err (Exit 2).
   Proof.
     unfold parse_gen, parse.
     fold (resolve_gen fuel tb argv root d). pose proof resolve_gen_cases as C.
     destruct (resolve_gen fuel tb argv root d) as [r|e].
-    - unfold final. destruct (forallb _ argv); [exact I | now left].
-    - destruct C as [[-> _]|C]; [now left | now right].
+    - unfold final. destruct (forallb _ argv); [left; eexists; reflexivity | now right].
+    - destruct C as [-> _]. now right.
   Qed.
 
   (* no written option is read as an abbreviation by the main parser (vacuous when the set-up does not complete) *)
@@ -993,46 +1010,28 @@ Section Main.
     | Err _ => true
     end.
 
-  Theorem meets_spec_or_crash :
+  Theorem meets_spec_partial :
     no_abbrev = true ->
-    parse_gen fuel tb argv root d = Err (Raise "AssertionError") /\ crash_free_dc false d = false
-    \/ expect_allows (spec d root its) (parse_gen fuel tb argv root d) = true.
+    expect_allows (spec d root its) (parse_gen fuel tb argv root d) = true.
   Proof.
     intros PL. unfold parse_gen, parse.
     fold (resolve_gen fuel tb argv root d). fold (final_gen tb argv root).
     pose proof resolve_gen_cases as C. pose proof final_spec as F. unfold no_abbrev in PL.
     destruct (resolve_gen fuel tb argv root d) as [r|e].
-    - right. destruct (F r PL eq_refl) as [v [soft [S Fi]]]. rewrite Fi. unfold spec. rewrite S.
+    - destruct (F r PL eq_refl) as [v [soft [S Fi]]]. rewrite Fi. unfold spec. rewrite S.
       destruct (forallb _ its); [|reflexivity].
       destruct soft; cbn [expect_allows]; [reflexivity|]. now rewrite (proj1 val_eqb_refl), rep_eqb_refl.
-    - destruct C as [[-> N]|[-> N]]; [right | left; now split].
-      unfold spec. rewrite N. reflexivity.
-  Qed.
-
-  Theorem meets_spec_partial :
-    crash_free_dc false d = true -> no_abbrev = true ->
-    expect_allows (spec d root its) (parse_gen fuel tb argv root d) = true.
-  Proof.
-    intros C PL. destruct (meets_spec_or_crash PL) as [[_ N]|H]; [congruence | exact H].
-  Qed.
-
-  Theorem no_crash :
-    crash_free_dc false d = true ->
-    (exists x, parse_gen fuel tb argv root d = Ok x) \/ parse_gen fuel tb argv root d = Err (Exit 2).
-  Proof.
-    intros C. pose proof parse_outcomes as O. destruct (parse_gen fuel tb argv root d) as [x|e].
-    - left. now exists x.
-    - right. destruct O as [->|[_ N]]; [reflexivity | congruence].
+    - destruct C as [-> N]. unfold spec. rewrite N. reflexivity.
   Qed.
 
   (* whatever the specification rejects (unknown key, required key missing, an option of an unselected alternative,
      an option that denotes nothing, a non-int value) ends with argparse's error *)
   Theorem rejected_partial :
-    crash_free_dc false d = true -> no_abbrev = true ->
+    no_abbrev = true ->
     spec d root its = MustReject -> parse_gen fuel tb argv root d = Err (Exit 2).
   Proof.
-    intros C PL S. pose proof (meets_spec_partial C PL) as M. rewrite S in M.
-    destruct (no_crash C) as [[x E]|E]; rewrite E in *; [discriminate | reflexivity].
+    intros PL S. pose proof (meets_spec_partial PL) as M. rewrite S in M.
+    destruct no_crash as [[x E]|E]; rewrite E in *; [discriminate | reflexivity].
   Qed.
 
   Theorem value_namespace r v rep :
@@ -1177,17 +1176,9 @@ Proof.
   vm_compute. discriminate.
 Qed.
 
-Lemma crash_refuted :
-  exists tb argv root d fuel,
-    declared_dc d = true /\ wf_dc d = true /\ str_nodupb (map fst tb) = true /\ depth_dc d <= fuel /\
-    no_abbrev tb argv root d fuel = true /\
-    parse_gen fuel tb argv root d = Err (Raise "AssertionError") /\
-    expect_allows (spec d root (intents_of tb argv)) (parse_gen fuel tb argv root d) = false.
-Proof.
-  exists [("--m", ["c"; "m"]); ("--inner", ["c"; "m"; "inner"])], [], ["c"], W_CRASH, 2.
-  split; [vm_compute; reflexivity|]. split; [vm_compute; reflexivity|]. split; [vm_compute; reflexivity|].
-  split; [vm_compute; lia|]. split; [vm_compute; reflexivity|]. split; vm_compute; reflexivity.
-Qed.
+(* W_CRASH (a frozen-instance entry whose class has a defaulted subgroup field) used to end with the round's own
+   AssertionError; it is kept as a regression witness: corpus/C07/instance_entry_nested_default.json and
+   Properties/C07.v C07_nonvacuous. *)
 
 (* `--lr 5` while only Adam's `--lrd` is registered *)
 Definition W_FX_ARGV : list tok := [("--model", "adamish"); ("--lr", "5")].
